@@ -25,6 +25,7 @@
 #define _GNU_SOURCE
 #include "vpeer.h"
 #include "vs.h"
+#include "orderrace.h"
 #include <errno.h>
 #include <fcntl.h>
 #include <pthread.h>
@@ -1164,5 +1165,11 @@ main(int argc, char **argv)
 	    "connection), ownership on EAGAIN/ETIMEDOUT, result set, conservation "
 	    "after final drain; a SENDBUF shrink may discard at most the messages "
 	    "that no longer fit (C18)");
+	{
+		static const orc_arg OR[] = { { "C06", "pushpull", nng_push0_open, nng_pull0_open, 0 } };
+		for (int i = 0; i < 1; i++)
+			if (i == 0 || vx_is_thorough())
+				orc_explore_tiers(&OR[i]);
+	}
 	return vx_finish();
 }
